@@ -135,7 +135,19 @@ def orientation(ctx):
             ctx.check(not got, key, 'avoids %s' % p.replace(LL, 'LinkedList::').rstrip('$'),
                       '%s uses %s: the newest secret is expected at the front of a chain (%s)' % (key, got[:1], meaning),
                       meaning, body.where())
-    # insert dispatches to the two helpers
+    # insert only ADDS: the secret it has just put at the front stays there, nothing is taken out of the chain on the way
+    # (a "bounded history" that trims the chain inside insert drops either the newest secret or old ones a user key still holds)
+    ik = 'data_struct::revision_map::RevisionMap::<K, V>::insert'
+    if ik in F.bodies:
+        REMOVERS = r'(LinkedList|VecDeque|Vec)::<[^>]*>::(pop_front|pop_back|pop|drain|truncate|clear|remove|split_off|retain|swap_remove)$'
+        for fb in lib.reach_bodies(F, ik, precise=True):
+            if not (fb.root or fb.key).startswith('data_struct::revision_map'):
+                continue
+            rm = fb.calls(REMOVERS)
+            n += 1
+            ctx.check(not rm, ik, 'insert only adds', 'RevisionMap::insert (through %s) also removes elements of the chain (%s, line %d): the '
+                      'secret a rotation has just created, or an older one still in use, disappears' %
+                      (fb.key, rm[0].name.split('::')[-1] if rm else '', rm[0].ln if rm else 0), 'push_front only', fb.where())
     ctx.floor(n, 11, 'orientation sites')
 
 
@@ -245,3 +257,20 @@ def stored_keys_keep_their_order(ctx):
     from . import c13, c01
     c13.restricted(ctx, r'(core::UserSecretKey)$', [c13.order, c13.read_loop_keeps_every_element, c13.read_keeps_every_element])
     c01.every_secret_tried(ctx)
+
+
+@rule('C04', 'update-keeps-chains', configs=('default', 'p256'))
+def update_keeps_chains(ctx):
+    """'refreshed keys follow the master key': an update of the master key (new / deleted attributes) leaves the chains of the
+    rights it keeps exactly as they are — it only drops whole chains, re-aligns the newest secret and adds chains for new rights
+    (C06.decrypt-kept: the operations update_msk applies to msk.secrets) — so "newest first" survives every update."""
+    from . import c06
+    c06.decrypt_kept(ctx)
+
+
+@rule('C04', 'instance-is-stateless')
+def instance_is_stateless(ctx):
+    """'refreshed keys follow the master key', whichever master key the instance is used with: the rights a policy denotes are computed from the structure of the key that is given, never remembered from another one. Structurally: the scheme instance holds its random generator and nothing else, and no type of the crate has an
+    interior-mutable field — no cache, no memo, no static, no thread-local (C19.state-audit)."""
+    from . import c19
+    c19.state_audit(ctx)
